@@ -12,7 +12,7 @@ S=/tmp/se_$N; rm -rf $S; mkdir -p $S; (cd /repo && git archive HEAD src | tar -x
 ( cd /tmp && env -u CI PYTHONPATH=$S/src /venv/bin/python $D/demo.py >/tmp/se_${N}_demo_mut.out 2>&1 ); M=$?
 cd /verif
 for P in $PID "$@"; do
-  PYTHONPATH=$S/src VERIF_REPO=$S timeout 1800 ./check.py $P > /tmp/se_${N}_$P.out 2>&1; E=$?
+  VERIF_OUT_DIR=$S/out PYTHONPATH=$S/src VERIF_REPO=$S timeout 1800 ./check.py $P > /tmp/se_${N}_$P.out 2>&1; E=$?
   echo "$N $P demo_head=$H demo_patched=$M check_exit=$E violations=$(grep -c '^VIOLATION' /tmp/se_${N}_$P.out) undecided=$(grep -c '^UNDECIDED' /tmp/se_${N}_$P.out) faults=$(grep -c '^CHECKER-FAULT' /tmp/se_${N}_$P.out) :: $(grep '^VIOLATION' /tmp/se_${N}_$P.out | head -1 | sed 's/.*\(obligation=[^ ]*\|standin=[^ ]*\).*/\1/' | cut -c1-120)"
 done
 rm -rf $S
